@@ -364,6 +364,63 @@ func (p *Parser) parseOperand() (Node, error) {
 				return nil, err
 			}
 			continue
+
+		case ".":
+			// Attribute access or method call on the result of an index, a call, a filter or a
+			// parenthesised expression (a name followed by attributes is handled by parseSimpleExpression)
+			line := p.tokens[p.tokenIndex].Line
+			p.tokenIndex++
+
+			if p.tokenIndex >= len(p.tokens) || p.tokens[p.tokenIndex].Type != TOKEN_NAME {
+				return nil, fmt.Errorf("expected attribute name at line %d", line)
+			}
+			attrName := p.tokens[p.tokenIndex].Value
+			attrNode := NewLiteralNode(attrName, p.tokens[p.tokenIndex].Line)
+			p.tokenIndex++
+
+			if p.tokenIndex < len(p.tokens) &&
+				p.tokens[p.tokenIndex].Type == TOKEN_PUNCTUATION &&
+				p.tokens[p.tokenIndex].Value == "(" {
+				p.tokenIndex++
+
+				var args []Node
+				if p.tokenIndex < len(p.tokens) &&
+					!(p.tokens[p.tokenIndex].Type == TOKEN_PUNCTUATION &&
+						p.tokens[p.tokenIndex].Value == ")") {
+					for {
+						argExpr, err := p.parseExpression()
+						if err != nil {
+							return nil, err
+						}
+						args = append(args, argExpr)
+
+						if p.tokenIndex < len(p.tokens) &&
+							p.tokens[p.tokenIndex].Type == TOKEN_PUNCTUATION &&
+							p.tokens[p.tokenIndex].Value == "," {
+							p.tokenIndex++
+							continue
+						}
+						break
+					}
+				}
+
+				if p.tokenIndex >= len(p.tokens) ||
+					p.tokens[p.tokenIndex].Type != TOKEN_PUNCTUATION ||
+					p.tokens[p.tokenIndex].Value != ")" {
+					return nil, fmt.Errorf("expected closing parenthesis after method arguments at line %d", line)
+				}
+				p.tokenIndex++
+
+				expr = &FunctionNode{
+					ExpressionNode: ExpressionNode{exprType: ExprFunction, line: line},
+					name:           attrName,
+					args:           args,
+					moduleExpr:     expr,
+				}
+			} else {
+				expr = NewGetAttrNode(expr, attrNode, line)
+			}
+			continue
 		}
 		break
 	}
